@@ -134,7 +134,9 @@ class FsShim:
             return None
         if not os.path.lexists(p):
             return ("missing", None)
-        if not os.path.isfile(p) or os.path.islink(p):
+        if os.path.islink(p) and not os.path.exists(p):
+            return ("missing", None)      # dangling link: no metafile there
+        if not os.path.isfile(p):
             return ("not-regular", None)
         with _real["open"](p, "rb") as f:
             return ("file", f.read())
